@@ -284,8 +284,15 @@ func c20(e *Env) {
 			// cannot serve its system tables; the proxy moves on to the next contact point, where the
 			// configured version must be what it asks for.
 			bad := w.AddNode(false)
-			bad.MaxVersion = 3
-			bad.FailControlQueries = true
+			if c.Choose("badcontact-silent", 2) == 1 {
+				// ... or accepts the connection and then says nothing at all: the attempt takes its
+				// whole connect time-out, and the next contact point gets a full one of its own
+				bad.Stalled = true
+				e.Res.Stats["probe.c20.silent_first_contact_point"]++
+			} else {
+				bad.MaxVersion = 3
+				bad.FailControlQueries = true
+			}
 			cc.opts["contact-points"] = bad.IP.String() + "," + w.Nodes[0].IP.String()
 			e.Res.Stats["probe.c20.unusable_first_contact_point"]++
 		}
